@@ -191,6 +191,7 @@ func runC15Case(c *fw.Ctx, id string, rq c15Req) {
 	out, rerr := env.run(ctx)
 	tag := id + " [" + rq.String() + "]"
 	detail := map[string]any{"request": rq.String(), "roles": fmt.Sprint(roles), "error": fmt.Sprint(rerr)}
+	env.monitors(id)
 	c.Count("requests", 1)
 	c.Nontrivial(fmt.Sprintf("%s/q%d/e%d/fr%d/fe%d/%s/rdns%v/cancel%v", rq.proto, rq.q, rq.e, len(rq.failRuns), len(rq.failE2e), rq.fetcher, rq.rdns, rq.cancelAt >= 0))
 	if out != nil && rerr != nil {
